@@ -65,7 +65,7 @@ def _seq(V, origin):
         # the container is one argument of a union: the union's stricter passes must not apply the policy early
         T = Optional[T]
     elif wrap == 'union':
-        T = Union[T, Dict[str, ET]]
+        T = Union[T, Dict[int, ET]]      # (the elements of the vocabulary never form int-keyed pairs: the mapping argument never takes the input)
     T = Rule.parse_annotation(T)
     pol = V.pick('invalid_items', POLICIES)
     xs = elements(V, V.T(3, 4))
@@ -93,8 +93,8 @@ def _seq(V, origin):
 
 
 for _o in ('list', 'tuple', 'optional-list', 'union-list', 'optional-tuple'):
-    ob('seq/' + _o, marks=['offender', 'clean'], budget=(60, 300),
-       bounds='%s (optional-: Optional[...], union-: Union[..., Dict[str, E]]) of n <= 3 (4 thorough) elements, each a solver int in -4..4 | "x" | "5" (thorough: also "-9", None); element type '
+    ob('seq/' + _o, marks=['offender', 'clean'], budget=(60, 900),
+       bounds='%s (optional-: Optional[...], union-: Union[..., Dict[int, E]]) of n <= 3 (4 thorough) elements, each a solver int in -4..4 | "x" | "5" (thorough: also "-9", None); element type '
               'Rule[int](ge=a), a in -2..2 symbolic; invalid_items policy solver-picked' % _o,
        out='longer sequences; nested containers (see nested/*)')((lambda o: lambda V: _seq(V, o))(_o))
 
@@ -131,7 +131,7 @@ def _set(V, origin):
 
 
 for _o in ('set', 'frozenset'):
-    ob('set/' + _o, marks=['offender', 'clean'], budget=(60, 300),
+    ob('set/' + _o, marks=['offender', 'clean'], budget=(60, 900),
        bounds='%s built from n <= 3 (4 thorough) elements as for seq, given either as a %s or as a list' % (_o, _o),
        out='as seq')((lambda o: lambda V: _set(V, o))(_o))
 
